@@ -333,6 +333,14 @@ func (lr *loopRunner) waitPark() (parkEvent, error) {
 }
 
 func (lr *loopRunner) stop() {
+	if lr.heldRelease != nil { // a behaviour that ends while the application's transaction is open: let it commit
+		close(lr.heldRelease)
+		lr.heldRelease = nil
+		select {
+		case <-lr.heldDone:
+		case <-time.After(5 * time.Second):
+		}
+	}
 	if lr.cancel != nil {
 		lr.cancel()
 	}
